@@ -201,6 +201,13 @@ impl Disk
             Some(vtoc) => vtoc.to_bytes(),
             None => return Ok(())
         };
+        // nothing to write if the image already holds the buffered VTOC (the sector is the buffer padded with
+        // zeros), in particular when only read operations were done on a write protected image
+        if let Ok(on_disk) = self.img.read_sector(VTOC_TRACK as usize, 0, 0) {
+            if on_disk.len()>=buf.len() && on_disk[0..buf.len()]==buf[..] && on_disk[buf.len()..].iter().all(|x| *x==0) {
+                return Ok(());
+            }
+        }
         log::debug!("writeback VTOC buffer");
         // We can use physical addressing for either DOS if sector = 0
         self.img.write_sector(VTOC_TRACK as usize, 0, 0, &buf)
